@@ -320,6 +320,11 @@ def install():
     df.Field.__init__ = field_init
 
 
+def reset(k):
+    """start the per-object variation counter at a value derived from the case, so that an aged case replays alone"""
+    _state["count"] = int(k) % 4096
+
+
 @contextlib.contextmanager
 def aging(on=True):
     """`with aging(): run_impl(case)` - harness-constructed meshes and fields are aged"""
